@@ -42,6 +42,9 @@ type scen struct {
 	CtxCancel bool `json:"server_side_cancel,omitempty"`
 	// Huge: payloads larger than any plausible write buffer (8 KiB strings)
 	Huge bool `json:"huge_payloads,omitempty"`
+	// Prose: 23 KiB string payloads full of commas, semicolons and blanks (nothing inside a
+	// JSON string is a structural position)
+	Prose bool `json:"prose_payloads,omitempty"`
 	// Paths: incremental payloads carry paths of DEcreasing length (a nested deferred group
 	// that completes before the group enclosing it), the last payload the shortest
 	Paths bool `json:"decreasing_paths,omitempty"`
@@ -92,6 +95,9 @@ func (in *inst) Body() {
 		if in.sc.Huge {
 			st.Raw = `"` + strings.Repeat(string(rune('a'+call%26)), 8192) + `"`
 		}
+		if in.sc.Prose {
+			st.Raw = `"` + strings.Repeat("lorem ipsum, dolor sit amet; ", 800) + fmt.Sprint(call) + `"`
+		}
 		return st
 	}
 	if in.sc.Transport == "mixed" {
@@ -105,6 +111,9 @@ func (in *inst) Body() {
 			}
 			if in.sc.Huge {
 				d = fmt.Sprintf("{\"inc\":%q}", strings.Repeat(string(rune('a'+i%26)), 8192))
+			}
+			if in.sc.Prose {
+				d = fmt.Sprintf("{\"inc\":%q}", strings.Repeat("lorem ipsum, dolor sit amet; ", 800)+fmt.Sprint(i))
 			}
 			hs.Incremental = append(hs.Incremental, d)
 			if in.sc.Paths {
@@ -449,7 +458,7 @@ func scenarios(tier string) []*explore.Scenario {
 	var out []*explore.Scenario
 	add := func(s scen) {
 		s2 := s
-		name := fmt.Sprintf("%s q=%s k=%d ka=%v dc=%v sp=%v", s.Transport, s.Query, s.Payloads, s.KeepAlive, s.Disconnect, s.Special) + map[bool]string{true: " rawws", false: ""}[s.RawWS] + map[bool]string{true: " paths", false: ""}[s.Paths] + map[bool]string{true: " huge", false: ""}[s.Huge] + map[bool]string{true: " ctxcancel", false: ""}[s.CtxCancel]
+		name := fmt.Sprintf("%s q=%s k=%d ka=%v dc=%v sp=%v", s.Transport, s.Query, s.Payloads, s.KeepAlive, s.Disconnect, s.Special) + map[bool]string{true: " rawws", false: ""}[s.RawWS] + map[bool]string{true: " paths", false: ""}[s.Paths] + map[bool]string{true: " huge", false: ""}[s.Huge] + map[bool]string{true: " prose", false: ""}[s.Prose] + map[bool]string{true: " ctxcancel", false: ""}[s.CtxCancel]
 		if s.Pair {
 			name += " pair"
 		}
@@ -485,6 +494,14 @@ func scenarios(tier string) []*explore.Scenario {
 	add(scen{Transport: "mixed", Query: "{a name}", Payloads: 2, RawWS: true})
 	add(scen{Transport: "sse", Query: "subscription{s2}", Payloads: 2, KeepAlive: true, Huge: true})
 	add(scen{Transport: "mixed", Query: "{a name}", Payloads: 2, Huge: true})
+	add(scen{Transport: "sse", Query: "subscription{s2}", Payloads: 2, Prose: true})
+	add(scen{Transport: "mixed", Query: "{a name}", Payloads: 2, Prose: true})
+	// more payloads in ONE flush than any plausible batch cap (default schedule: no flush tick
+	// fires, everything is queued until the operation is done)
+	out = append(out, &explore.Scenario{Name: "mixed q={a name} k=70 one batch", DefaultOnly: true, Meta: scen{Transport: "mixed", Query: "{a name}", Payloads: 70},
+		New: func() explore.Instance { return &inst{sc: scen{Transport: "mixed", Query: "{a name}", Payloads: 70}} }})
+	out = append(out, &explore.Scenario{Name: "sse q=subscription{s2} k=70", DefaultOnly: true, Meta: scen{Transport: "sse", Query: "subscription{s2}", Payloads: 70},
+		New: func() explore.Instance { return &inst{sc: scen{Transport: "sse", Query: "subscription{s2}", Payloads: 70}} }})
 	add(scen{Transport: "mixed", Query: "{a name}", Payloads: 2, CtxCancel: true})
 	add(scen{Transport: "mixed", Query: "{a name}", Payloads: 1, CtxCancel: true})
 	add(scen{Transport: "mixed", Query: "{a name}", Payloads: 2, Paths: true})
